@@ -9,8 +9,17 @@ import (
 // Scan breaks a string into a sequence of Tokens.
 func Scan(data string, loc SourceLoc, delims []string) (tokens []Token) {
 	// Apply defaults
+	defaults := []string{"{{", "}}", "{%", "%}"}
 	if len(delims) != 4 {
-		delims = []string{"{{", "}}", "{%", "%}"}
+		delims = defaults
+	} else {
+		// An empty delimiter stands for the corresponding default.
+		delims = append([]string(nil), delims...)
+		for i, d := range delims {
+			if d == "" {
+				delims[i] = defaults[i]
+			}
+		}
 	}
 	tokenMatcher := formTokenMatcher(delims)
 
